@@ -1207,7 +1207,7 @@ ASSUMPTIONS = [
 EXPLANATION = "Dispatch table against introspected CasADi interface, if-folds, residual sign, loop range."
 MANIFEST = {
     "category": "proof",
-    "text": "exitExpression is executed for every operator of the statement against the interface of the installed CasADi (introspected each run): the dispatch reaches an existing method that denotes the Modelica operator on the operands in order (/, <>, and/or, min/max/abs, elementary functions, matrix product). The if-expression and if-equation folds give ite(c1,e1,ite(c2,e2,...else)) for 1-4 conditions (first true branch wins), the residual is left - right, and ForLoop's values are exactly Modelica's start:step:stop range for all integers. exitForEquation / exitForStatement map one body function over every loop value with each formal (index, indexed symbols, free symbols) bound to its own actual and the per-iteration assignments emitted iteration by iteration; exitIfStatement folds first-true-wins per variable; get_function gives algorithm sections sequential-assignment semantics (statement k sees the values assigned before it) with inputs/outputs in declaration order; exitEquation discards surplus function outputs from the end; get_derivative's chain rule keeps the derivative of every (vector) symbol the expression depends on. A bounded replay evaluates real residuals per operator, branch pattern and range.",
+    "text": "exitExpression is executed for every operator of the statement against the interface of the installed CasADi (introspected each run): the dispatch reaches an existing method that denotes the Modelica operator on the operands in order (/, <>, and/or, min/max/abs, elementary functions, matrix product). The if-expression and if-equation folds give ite(c1,e1,ite(c2,e2,...else)) for 1-4 conditions (first true branch wins), the residual is left - right, and ForLoop's values are exactly Modelica's start:step:stop range for all integers. exitForEquation / exitForStatement map one body function over every loop value with each formal (index, indexed symbols, free symbols) bound to its own actual and the per-iteration assignments emitted iteration by iteration; exitIfStatement folds first-true-wins per variable; get_function gives algorithm sections sequential-assignment semantics (statement k sees the values assigned before it) with inputs/outputs in declaration order; exitEquation discards surplus function outputs from the end; get_derivative's chain rule keeps the derivative of every (vector) symbol the expression depends on. A bounded replay evaluates real residuals per operator, branch pattern and range. get_derivative on loop placeholders: two subscripts of one array in one loop each get the array derivative at their own subscripts.",
     "note": "CasADi's numeric semantics (incl. Function.map / substitute) are assumed; interpolation, array layout and delayed symbols in for-loops are outside the contracts; list shapes are enumerated.",
     "technique": "contract-based deductive verification: symbolic execution with provenance-recording CasADi terms and introspected interface facts, integer VCs for the loop range, z3",
 }
